@@ -19,7 +19,8 @@ CORE = {
                 fam_q=[('readers', 240), ('faults', 96), ('free', 48)], fam_t=[('readers', 4000), ('faults', 1500), ('free', 1000)]),
     'C05': dict(prefixes=['C05_', 'C01_RootIsAbstract', 'C01_reader'], mc_q=[('MC_linear_q', 300)], mc_t=[('MC_linear_t', 1500)],
                 fam_q=[('conc', 200), ('free', 96), ('dfs2', 1)], fam_t=[('conc', 4000), ('free', 2000), ('dfs2', 3)]),
-    'C06': dict(prefixes=['C06_'], mc_q=[('MC_merge_q', 300)], mc_t=[('MC_merge_t', 1500)],
+    # C06 also counts the on-disk clauses: a reader opened on the directory must not see content changed by an in-memory merge either
+    'C06': dict(prefixes=['C06_', 'C03_EveryLoadableIsPrefix', 'C03_DiskIsPrefix', 'C03_recovered_not_prefix'], mc_q=[('MC_merge_q', 300)], mc_t=[('MC_merge_t', 1500)],
                 fam_q=[('merge', 200), ('memmerge', 64)], fam_t=[('merge', 4000), ('memmerge', 1000)]),
     'C11': dict(prefixes=['C11_'], mc_q=[('MC_files_q', 300)], mc_t=[('MC_files_t', 1500)],
                 fam_q=[('files', 240)], fam_t=[('files', 4000)]),
